@@ -32,6 +32,8 @@ MUTANTS = [
     ('interactive copy shares the value stack', 'C13', 'ParserState.copy', 'lark/parsers/lalr_parser_state.py', r'deepcopy\(self\.value_stack\) if deepcopy_values else copy\(self\.value_stack\)', 'self.value_stack'),
     ('child filter drops the placeholder of the last entry', 'C03', 'ChildFilter', 'lark/parse_tree_builder.py', r'filtered \+= \[None\] \* self\.append_none', 'filtered += [None] * (self.append_none - 1)'),
     ('mangle forgets the prefix for underscore names', 'C17', 'mangle', 'lark/load_grammar.py', r"s = '_%s__%s' % \(prefix, s\[1:\]\)", "s = '_%s' % (s[1:],)"),
+    ('start search runs over the scanner list (folded keywords gone)', 'C14', 'search_scanner', 'lark/lexer.py', r'\[t for t in self\.terminals if t\.name not in self\.ignore_types\]', '[t for t in self.scanner.terminals if t.name not in self.ignore_types]'),
+    ('priority=None leaves one terminal priority in place', 'C05', 'Lark.__init__', 'lark/lark.py', r'            for term in self\.terminals:\n                term\.priority = 0', '            for term in self.terminals[1:]:\n                term.priority = 0'),
     ('transformer visits children right to left', 'C16', '_transform_children', 'lark/visitors.py', r'for c in children:\n(\s+)if isinstance\(c, Tree\):', r'for c in reversed(children):\n\1if isinstance(c, Tree):'),
 ]
 
